@@ -129,12 +129,6 @@ def run_one(check, case):
         raise
     except RecursionError as e:
         return FAIL("escaped:RecursionError", "RecursionError escaped from the library call")
-    except BaseException as e:  # lab guards (SpinGuard / BudgetExceeded) escaping a module: inconclusive
-        if type(e).__name__ in ("SpinGuard", "BudgetExceeded"):
-            from vlib.core import SKIP
-
-            return SKIP(type(e).__name__)
-        raise
     except Exception as e:  # noqa
         if _classify_exception(e) == "repo":
             tb = traceback.extract_tb(e.__traceback__)
@@ -142,6 +136,12 @@ def run_one(check, case):
             where = f"{os.path.relpath(fr.filename, REPO)}:{fr.name}"
             return FAIL(f"escaped:{type(e).__name__}@{where}", "".join(traceback.format_exception(e))[-1500:])
         raise HarnessError(f"{check.name}: {type(e).__name__}: {e}\n" + "".join(traceback.format_exception(e))) from e
+    except BaseException as e:  # lab guards (SpinGuard / BudgetExceeded) escaping a module: inconclusive
+        if type(e).__name__ in ("SpinGuard", "BudgetExceeded"):
+            from vlib.core import SKIP
+
+            return SKIP(type(e).__name__)
+        raise
     if not isinstance(res, Result):
         raise HarnessError(f"{check.name}: run() returned {type(res)}")
     return res
